@@ -39,7 +39,7 @@ MANIFEST = {
              "timer callbacks) with a logical clock; the Go runtime is part of the environment (Tick / Fire only when due / Run). Theorems in C16.v, for ALL "
              "histories: c16_never_early (a timeout close carries a deadline <= the close time that was in force when it fired), c16_clear, c16_autoclear, "
              "c16_backlog_keeps, c16_no_stale (nothing changes after the close), c16_ws_disabled, c16_client_response_clears; for the eager runtime: c16_fires, c16_fires_exact, c16_renew, "
-             "c16_keepalive; c16_eager_is_primitive ties the two layers. Every run: 300 connection histories (30 named scenarios + random) rotating over the transports tcp accepted / DialAsyncTimeout / DialAsync / AddConn, "
+             "c16_keepalive; c16_eager_is_primitive ties the two layers. Every run: 300 connection histories (32 named scenarios + random) rotating over the transports tcp accepted / DialAsyncTimeout / DialAsync / AddConn, "
              "unix AddConn, udp DialUDP+AddConn / DialAsync(udp) / per-peer server session, with and without traffic drained to EAGAIN before the first deadline; the close error must be the exact timeout error value, 60 nbhttp keep-alive, 60 WebSocket, 60 websocket.Dialer (DialTimeout / client keep-alive 0 and >0; silent, pinged, receiving, sending) "
              "and 60 nbhttp.ClientConn histories (Timeout / IdleConnTimeout 0 and >0; answered requests, idle periods, a request never answered; the close of the underlying "
              "connection is observed through the client engine's OnClose) on a 80 ms grid against real engines; the model must predict closed?/armed timers/backlog/Write result after every "
